@@ -36,7 +36,7 @@ ASSUMPTIONS = [
 
 
 def budget(tier):
-    return {"examples": 1200 if tier == "quick" else 24000, "shards": 16, "shrink": 150 if tier == "quick" else 600}
+    return {"examples": 3000 if tier == "quick" else 40000, "shards": 16, "shrink": 150 if tier == "quick" else 600}
 
 
 def strategy(tier):
